@@ -27,6 +27,10 @@ func readGitConfig(configs ...*git.ConfigurationSource) (gf *GitFetcher, extensi
 		uniqKeys := make(map[string]string)
 
 		for _, line := range gc.Lines {
+			if len(line) == 0 {
+				// `git config -l` printed nothing (an empty file)
+				continue
+			}
 			pieces := strings.SplitN(line, "=", 2)
 			if len(pieces) < 2 {
 				// A key without a value: a boolean that is true,
